@@ -111,7 +111,10 @@ def script(cat, rng, kind, exhaustive_prof=None, items=None):
     gens = 1 if exhaustive_prof is not None else 1 + rng.below(3)
     srcs = fill_sources(b, rng, prof, 1 + rng.below(3), "s")
     counts = dict(prof)
+    ever = set()      # every symbol some ancestor of the current sources has known
+    probe = False     # the previous generation's target was cleared: probe this one with a stale symbol
     for g in range(gens):
+        ever |= set(counts)
         t = "t%d" % g
         m = "m%d" % g
         b.merge(t, srcs)
@@ -139,7 +142,10 @@ def script(cat, rng, kind, exhaustive_prof=None, items=None):
                 total += cs[s] * ln
             opt = huffman_cost(list(cs.values()))
             return None if total == opt else "total bits %d, optimal %d" % (total, opt)
-        b.raw("readall %s" % m, ("pred", cost_pred, "code lengths are an optimal prefix code"), sig="huffman-not-optimal", shape="cost")
+        nc = b.raw("readall %s" % m, ("pred", cost_pred, "code lengths are an optimal prefix code"), sig="huffman-not-optimal", shape="cost")
+        # bit ranges are not compared with the model (another tie-break gives another optimal code), but the model's
+        # code must be optimal for these counts as well: this is what ties its statistics and its tree to the crate's
+        b.s.lines[nc].both = True
         # items on the target
         last_line = None
         seq = items if items is not None else [[rng.pick(symbols) for _ in range(rng.pick([0, 1, 1, 2, 3, 4, 5, 8, 9, 17]))]
@@ -171,27 +177,37 @@ def script(cat, rng, kind, exhaustive_prof=None, items=None):
             b.read(t, k, sig="huffman-decode-differs")
             b.s.nontrivial = True
         b.readall(t, sig="huffman-decode-differs")
-        if rng.below(3) == 0 and exhaustive_prof is None:
+        if (rng.below(3) == 0 or probe) and exhaustive_prof is None:
             # an unknown symbol must be refused (on a scratch clone: the refusal poisons the handle)
             unknown = next(x for x in range(255, -1, -1) if x not in counts) if not u16 else 60000
+            # preferably a *stale* symbol: known to an ancestor (or to this region before a clear), absent from the
+            # statistics this code was built from — a region that inherits statistics would accept it
+            stale = sorted(ever - set(counts))
+            if stale:
+                unknown = stale[rng.below(len(stale))]
             b.clone("u", t)
             item = [rng.pick(symbols), unknown]
             b.push("u", val(b, item), "own", expect="refused", sig="huffman-unknown-symbol-accepted", cmp="status")
+        probe = False
         if rng.below(5) == 0:
+            probe = True
             b.clear(t)
             item = [rng.below(250) for _ in range(rng.below(5))]
             k, _ = b.push(t, val(b, item), b.form_for(item), sig="huffman-raw-push")
             b.read(t, k, sig="huffman-raw-read")
         # next generation: statistics are what was pushed into t and m
+        # now and then only `t` serves as a source: the symbols that were only measured in `m` become stale
+        # (always after a clear: what `t` knew before the clear must be gone)
+        nsrcs = [t] if (exhaustive_prof is None and (probe or rng.below(3) == 0)) else [t, m]
         nxt = {}
-        for name in (t, m):
+        for name in nsrcs:
             for v in b.h[name].vals:
                 for s in v:
                     nxt[s] = nxt.get(s, 0) + 1
         if not nxt:
             break
         counts = nxt
-        srcs = [t, m]
+        srcs = nsrcs
     return b.s
 
 
